@@ -214,6 +214,35 @@ func runC18D2J1(c *Ctx) {
 		})
 	}
 	c.atLeast("C18.D2", "Server.Shutdown invocations in proxy.Shutdown", n, 1)
+	// the context of one server is not cancelled by another: a cancel function captured by a closure that is started
+	// with `go` (once per server) belongs to a context shared by all of them — the first server to finish cancels it
+	for _, f := range c.region(sd) {
+		eachInstr(f, func(i ssa.Instruction) {
+			g, isGo := i.(*ssa.Go)
+			if !isGo {
+				return
+			}
+			mc, isMC := g.Call.Value.(*ssa.MakeClosure)
+			if !isMC {
+				return
+			}
+			shared := false
+			for _, b := range mc.Bindings {
+				if derives(b, func(v ssa.Value) bool {
+					ex, ok := v.(*ssa.Extract)
+					if !ok || ex.Index != 1 {
+						return false
+					}
+					_, isCtx := isCallTo(ex.Tuple, "context.WithTimeout", "context.WithDeadline", "context.WithCancel")
+					return isCtx
+				}) {
+					shared = true
+				}
+			}
+			c.check("C18.D2", fnKey(f)+"|no cancel function shared between the per-server goroutines", i.Pos(), !shared,
+				"a goroutine started per server captures the cancel function of a context created outside it: the first server that finishes its Shutdown cancels the context of all the others, whose in-flight work is then cut before the wait has elapsed")
+		})
+	}
 	// main passes cfg.Proxy.ShutdownWait
 	nm := 0
 	for _, f := range c.AllFns {
